@@ -362,6 +362,9 @@ func main() {
 	case "c06":
 		runC06(*in, reserved, b)
 		return
+	case "c07":
+		runC07(*aux, *in, reserved, b)
+		return
 	}
 	f, err := os.Open(*in)
 	if err != nil {
